@@ -4,7 +4,7 @@ NOT_APPLICABLE = {
 HELD = ('Holds on the executions observed by this run (counts in the evidence file); nothing is claimed about programs, '
         'inputs or histories that were not generated. Exit 2 (inconclusive) when a deciding monitor was never reached.')
 
-C01_PENDING = ('exploration',
+register('C01', 'exploration',
          'History + executable model: typed random programs (IR) are rendered to QBASIC, compiled by the real compiler at the six '
          'configurations and run on the real VM with scripted peripherals; the device history (typed PRINT arguments decoded on '
          'the operand stack at `io terminal,print`, prompts, inputs, screen/sound/memory calls, RND/TIMER/INKEY consumption), the '
